@@ -1,6 +1,6 @@
 (* C08 - An interrupted or failed sync can always be repaired by running it again.  Statements only. *)
 From RJ Require Import Base.Prelude Base.OrderedPlan Model.Settings Model.Core Model.Fs Model.Paths Model.Sync Model.SyncTop
-  Spec.PlanSpec Spec.Mirror Proofs.ExecProofs Proofs.MirrorProofs Proofs.InstanceProofs Proofs.CrashProofs Proofs.CrashMain Proofs.WfProofs Proofs.RepairMain.
+  Spec.PlanSpec Spec.Mirror Proofs.ExecProofs Proofs.MirrorProofs Proofs.InstanceProofs Proofs.CrashProofs Proofs.CrashMain Proofs.WfProofs Proofs.RepairMain Proofs.KillEvents.
 
 (* The invariant (Proofs/CrashProofs.v): on the destination a file that carries a SET time - as opposed
    to the time of its last write - is either the very file that was there before the run, or holds exactly
@@ -105,6 +105,19 @@ Theorem C08_rerun_executable : forall cfg S D a fw ans bits ls ld ft s,
     exists b0, fget D p = Some (NFile (TSet t) b0) /\ fget (d_fs (r_dest r2)) p = Some (NFile (TSet t) b0).
 Proof. exact rerun_repairs_executable. Qed.
 
+(* With C02's general confinement theorem (no run ever resolves through a destination link) the premise about
+   links disappears for the executable sync: EVERY kill state and the final state of EVERY run - any outcome,
+   any fault plan - satisfy Good, and none of them has logged a Through event. *)
+Theorem C08_executable_unconditional : forall cfg S D a ans bits ex ft,
+  unique_keys S -> wf_fs S -> unique_keys D -> wf_fs D ->
+  let ls := list_fs now_far (excl_incl ex) normalize_unix S in
+  let ld := list_fs now_far (excl_incl ex) normalize_unix D in
+  let r := run_top cfg S D a ans bits ex ft in
+  (forall s, In s (sync_kill_states now_far normalize_unix chunk_real cfg S (world D a []) ans bits ls ld ft) ->
+     Good S D s /\ no_through (d_events s)) /\
+  Good S D (r_dest r).
+Proof. exact kill_states_good_unconditional. Qed.
+
 (* Non-vacuity and the F4 scenario: a two-chunk file whose first write fails while the boss has already
    queued the last chunk (lag 3).  The last chunk is refused, the run fails, and the destination keeps an
    unstamped partial file; among the kill states there are states with a partially written file. *)
@@ -131,3 +144,4 @@ Print Assumptions C08_rerun_repairs.
 Print Assumptions C08_executable.
 Print Assumptions C08_states_well_formed.
 Print Assumptions C08_rerun_executable.
+Print Assumptions C08_executable_unconditional.
